@@ -173,11 +173,17 @@ def exec_while(I, node, env):
         # exact unrolling while the condition stays decidable on the path; with an `unroll=N` annotation an
         # undecided condition forks (complete when the inputs are range-bounded by the contract's case split)
         n = 0
+        sym_iters = 0
         limit = ann.get("unroll") if ann else None
         while True:
             cond = I.truth(I.eval(node.test, env))
             cb = conc_bool_or_none(cond)
             if cb is None:
+                sym_iters += 1
+                if ann is None and sym_iters > 48:
+                    # the condition is not concrete, yet the path condition keeps deciding it (typically because the body forks on
+                    # how much was consumed): this is a loop of symbolic trip count being unrolled one path per count
+                    raise OutOfReach(f"loop {fname}#{k}: symbolic trip count (48 iterations unrolled, the condition still depends on symbolic values) and no loop annotation")
                 d = R._decide(I.ctx, cond)
                 if d is None:
                     if limit is None:
